@@ -1899,6 +1899,30 @@ bool DGXMLScanner::scanStartTagNS(bool& gotData)
         }
     }
 
+    //  Also find any default or fixed xmlns attributes defined in the DTD for
+    //  this element that were not provided, since they declare namespaces too.
+    if (fDoNamespaces && elemDecl->hasAttDefs())
+    {
+        XMLAttDefList& attDefList = elemDecl->getAttDefList();
+        for (XMLSize_t i = 0; i < attDefList.getAttDefCount(); i++)
+        {
+            const XMLAttDef& curDef = attDefList.getAttDef(i);
+            const XMLAttDef::DefAttTypes defType = curDef.getDefaultType();
+            if ((defType != XMLAttDef::Default) && (defType != XMLAttDef::Fixed))
+                continue;
+
+            unsigned int* attCountPtr = fAttDefRegistry->get(&curDef);
+            if (attCountPtr && *attCountPtr >= fElemCount)
+                continue;
+
+            const XMLCh* rawPtr = curDef.getFullName();
+            if (!XMLString::compareNString(rawPtr, XMLUni::fgXMLNSColonString, 6))
+                updateNSMap(XMLUni::fgXMLNSString, rawPtr + 6, curDef.getValue());
+            else if (XMLString::equals(rawPtr, XMLUni::fgXMLNSString))
+                updateNSMap(XMLUni::fgZeroLenString, XMLUni::fgZeroLenString, curDef.getValue());
+        }
+    }
+
     //  Make an initial pass through the list and find any xmlns attributes.
     if (attCount)
       scanAttrListforNameSpaces(fAttrList, attCount, elemDecl);
